@@ -492,6 +492,28 @@ func c13(c *Ctx) {
 		c.ExpectAll("fuse/holder-recorded", got, pat("litefs.(*DB).AcquireRemoteHaltLock(@@)#0"), 1, "the handle records the lock the acquisition returned", "")
 	}
 	c.Guarded("fuse/release-only-when-held", uh, p.Calls("litefs.(*DB).ReleaseRemoteHaltLock"), gs(GP("(nil == p0.haltLock)", false)), 1, "the handle releases only a lock it holds", "")
+	{
+		// an interrupted release (EINTR: the kernel re-issues the unlock) must keep the handle's record of the lock
+		clear := func(in ssa.Instruction) bool {
+			return p.Writes("fuse.LockHandle.haltLock")(in) && fieldStoreVal(p, in) == "nil"
+		}
+		isRet := func(eintr bool) IM {
+			return func(in ssa.Instruction) bool {
+				r, ok := in.(*ssa.Return)
+				if !ok || len(r.Results) != 1 || (r.Block().Index != 0 && len(r.Block().Preds) == 0) {
+					return false
+				}
+				return (p.Render(returnedValue(r, 0)) == "4") == eintr
+			}
+		}
+		rel := p.Calls("litefs.(*DB).ReleaseRemoteHaltLock")
+		c.After("fuse/unlock-forgets-after-release", uh, rel, clear, isRet(false), 1,
+			"after the release was attempted every exit other than EINTR has cleared the handle's record of the lock", "a handle that keeps the record releases a lock it no longer holds on the next unlock")
+		c.NoPath("fuse/interrupted-unlock-keeps-record", uh, clear, isRet(true), 1,
+			"the EINTR exit (release interrupted, the unlock will be re-issued) is never reached after the record was cleared", "the re-issued unlock would find no lock recorded and report success without releasing anything: the primary stays halted until the TTL, or the replica stays writable")
+		c.OnlyIn("fuse/record-cleared-by", clear, []string{pat("fuse.(*LockHandle).unlockHalt")}, 1, "only unlockHalt itself clears the handle's record (not a deferred closure that runs on every exit)", "")
+		c.Before("fuse/eintr-exit-exists", uh, isRet(true), rel, 1, "the EINTR exit follows the release attempt", "")
+	}
 	c.Guarded("fuse/acquire-only-when-not-held", lw, p.Calls("litefs.(*DB).AcquireRemoteHaltLock"), gs(GP("(nil == p0.haltLock)", true)), 1, "the handle acquires only when it holds none", "")
 	c.OnlyIn("fuse/flush-releases", p.Calls(uh), []string{pat("fuse.(*LockHandle).Flush"), pat("fuse.(*LockHandle).Unlock")}, 2, "closing the lock file (Flush) and unlocking both release the halt lock", "a process that dies while holding the lock must not leave the primary halted until the TTL")
 	c.Guarded("fuse/halt-byte-only", "fuse.(*LockHandle).LockWait", p.Calls(lw), gs(GP("(72 == p2.Lock.Start)", true)), 1, "only the HALT byte (72) of the lock file starts the halt protocol", "")
